@@ -28,6 +28,7 @@ inductive Step where
   | remapUri (dst src : Nat) (rm : List (Str × Str))
   | rewire (dst src : Nat) (rm : List (Str × Str))
   | fresh (dst src : Nat) (extra : List Record)                 -- Converter(copies of src.records + extra, delimiter=src.delimiter)
+  | clone (dst src : Nat)                                       -- copy.deepcopy / pickle round trip of a converter
   | dups (recs : List Record)                                   -- the listing of a strict construction
   | loadPm (dst : Nat) (pm : List (Str × Str)) (delim : Str) (strict : Bool)
   | loadPriority (dst : Nat) (data : List (Str × List Str))
@@ -151,6 +152,10 @@ def Step.exec (fold : Str → Str) (s : Slots) : Step → Slots × Val
       match Conv.init? (c.records ++ extra) c.delim true with
       | .ok c' => (s.put dst c', .none)
       | .error e => (s, .err e)
+  | .clone dst src =>
+    match s.get? src with
+    | none => (s, .bad "no such slot")
+    | some c => (s.put dst c, .none)
   | .dups recs =>
     match recs.mapM Record.validate with
     | .error e => (s, .err e)
@@ -211,6 +216,7 @@ def step (j : Json) : D Step := do
   | "remap_uri" => pure (.remapUri (← nat "dst") (← nat "src") (← pairs (← j.getObjVal? "mapping")))
   | "rewire" => pure (.rewire (← nat "dst") (← nat "src") (← pairs (← j.getObjVal? "mapping")))
   | "fresh" => pure (.fresh (← nat "dst") (← nat "src") (← records (fieldD j "extra" (.arr #[]))))
+  | "clone" => pure (.clone (← nat "dst") (← nat "src"))
   | "dups" => pure (.dups (← records (← j.getObjVal? "records")))
   | "load_pm" =>
     pure (.loadPm (← nat "dst") (← pairs (← j.getObjVal? "data")) (← str (fieldD j "delim" (.arr #[58])))
